@@ -96,14 +96,14 @@ Qed.
 (* end to end: the device packs field values after a data header with the expected id; ask returns
    bytes that unpack to exactly those field values; the driver packs field values and the device,
    after the header, unpacks them *)
-Lemma apt_ask_fields L sizeof expect dst src vss rest :
+Lemma apt_ask_fields hc L sizeof expect dst src vss rest :
   layout_wf L sizeof = true -> values_ok L vss -> expect < 65536 -> dst < 256 -> src < 256 ->
-  exists bytes, apt_ask false expect sizeof (hdr_data expect sizeof dst src ++ pack L vss ++ rest) = (Ok bytes, rest) /\
+  exists bytes, apt_ask hc false expect sizeof (hdr_data expect sizeof dst src ++ pack L vss ++ rest) = (Ok bytes, rest) /\
                 unpack L bytes = vss.
 Proof.
   intros WF V He Hd Hs. destruct (fields_roundtrip L sizeof WF vss [] V) as (A & B & C).
   exists (pack L vss). rewrite app_nil_r in A. split; [|exact A].
-  pose proof (apt_ask_ok expect sizeof src dst (pack L vss) [] rest) as K.
+  pose proof (apt_ask_ok hc expect sizeof src dst (pack L vss) [] rest) as K.
   rewrite !app_nil_r in K. rewrite B in K. apply K; try assumption; reflexivity.
 Qed.
 
